@@ -36,7 +36,8 @@ CONSTANTS Family,        \* "expr": expression spines below `let x = _`;  "form"
           MaxDepth,      \* number of constructors on a spine below the root
           FullOps,       \* "reps" (one operator per precedence level as children of Full2) or "all"
           AllAtomsUpTo,  \* spines with at most this many constructors are closed by every nullary form of the sort,
-          DefaultFrom    \* longer ones by the core forms only, spines with at least DefaultFrom constructors by the default leaf
+          DefaultFrom,   \* longer ones by the core forms only, spines with at least DefaultFrom constructors by the default leaf
+          OpsFrom        \* constructors number OpsFrom.. of a spine are operator forms only (precedence-relevant nestings)
 
 Sig(n, s, t, sl) == <<n, s, t, sl>>
 
@@ -300,8 +301,13 @@ Init == IF Family = "full" THEN sp = <<>> /\ leaf = "" /\ full \in FullTerms
 \* rejects a template inside an interpolation, so such programs are outside the property's quantifier)
 TemplateForms == {"tmpl1", "tmpl2", "str-tmplid"}
 InTemplate == \E k \in 1..Len(sp) : sp[k][1] \in TemplateForms
+OpForms == {"bin" \o o : o \in IF FullOps = "all" THEN {BinTable[i][1] : i \in BinIdx} ELSE BinReps} \cup
+           {"cast-as", "cast-as?", "cast-as!", "neg", "not", "deref", "move", "ref", "cond", "force", "member", "optmember", "index",
+            "call1", "destroy", "attach", "opt", "varr", "funT", "refT", "auth1", "inst1"}
 Extend == /\ Family # "full" /\ leaf = "" /\ Len(sp) - RootLen < MaxDepth
-          /\ \E p \in CtorSlots[CurSort] : p[1] # "rootE" /\ (InTemplate => p[1] \notin TemplateForms) /\ sp' = Append(sp, p)
+          /\ \E p \in CtorSlots[CurSort] : /\ p[1] # "rootE" /\ (InTemplate => p[1] \notin TemplateForms)
+                                           /\ (Len(sp) - RootLen + 1 >= OpsFrom => p[1] \in OpForms)
+                                           /\ sp' = Append(sp, p)
           /\ UNCHANGED <<leaf, full>>
 \* short spines are closed by every nullary form, longer ones only by the core forms (identifier, integer, nominal type, ...)
 Close  == /\ Family # "full" /\ leaf = "" /\ Len(sp) > 0
